@@ -74,9 +74,9 @@ def plan(tier, seed):
             shards.append({"kind": "random", "configs": rest[i::8], "n_per": 10, "seed": seed * 31 + i})
     else:
         for i in range(0, len(cfgs), 8):
-            shards.append({"kind": "dfs", "configs": cfgs[i:i + 8], "cap": 1200, "n_random": 400, "seed": seed})
+            shards.append({"kind": "dfs", "configs": cfgs[i:i + 8], "cap": 800, "n_random": 300, "seed": seed})
         for i in range(8):
-            shards.append({"kind": "random", "configs": cfgs[i::8], "n_per": 60, "seed": seed * 31 + i})
+            shards.append({"kind": "random", "configs": cfgs[i::8], "n_per": 40, "seed": seed * 31 + i})
     shards.append({"kind": "stub", "seed": seed, "reps": 3 if tier == "quick" else 40})
     shards.append({"kind": "window"})
     return shards
